@@ -52,20 +52,43 @@ ASSUMPTIONS = [
     "value tests (requires_if, required_if_eq*) are 'some explicit raw value equals'; ASCII-case-insensitive when "
     "the tested argument has ignore_case; tests on a group id are never decided",
 ]
-TECHNIQUE = ("Coq proof about the executable model of Validator::validate (conflicts, exclusive, required graph, "
-             "conditional requirements, exemptions) + extracted-model/implementation correspondence + direct python "
-             "oracle on every successful parse")
-LEVEL_TEXT = ("Machine-checked theorems (Coq 8.16, closed under the global context) state that whenever the model of "
-              "the parser returns Ok without ignore_errors the explicit id set of every level satisfies the declared "
-              "relations (conflicts in both directions with groups unrolled, exclusive, non-multiple groups, static / "
-              "requires / required-group / required-if / required-unless requirements up to the documented exemptions, "
-              "defaults not counting); the model is tied to clap_builder by running the extracted model and the real "
-              "crate on the same generated cases on every check, and an independent python oracle re-checks every "
+TECHNIQUE = ("Coq proof about the executable model of Validator::validate and of the parser around it: soundness of "
+             "the validator for a declarative specification (any relation graph), lifted by induction over the "
+             "subcommand recursion to EVERY level of the reported chain (frame lemmas for the token loop and the "
+             "post-loop phases, C02's key-uniqueness invariant), one theorem per clause of the property text, the "
+             "converse (completeness) for conflicts and for statically required arguments, the two recorded findings as "
+             "boolean families of definitions with step-level theorems for Parser::remove_overrides / start_custom_arg "
+             "+ extracted-model/implementation correspondence + direct python oracle on every successful parse")
+LEVEL_TEXT = ("57 pinned machine-checked theorems (Coq 8.16, all closed under the global context, no standard-library axiom).  "
+              "C03_parse_sound_tree / C03_parse_top_sound_tree: for every valid definition of the class plain (no short "
+              "flag-subcommands) + no_ignore (no node sets ignore_errors; the class is proved to be inherited by every "
+              "command the parser builds) and every argv, a successful parse reports -- up to the copy of global "
+              "values, which keeps the chain of names -- a chain whose matcher satisfied the declarative Relations at "
+              "EVERY level against that level's own built definition, ending at a level without subcommand or at an "
+              "external subcommand (only where allowed); C03_level_sound_tree is the same for any level/depth.  "
+              "Clause by clause, for all relation graphs (C03_clause_*): conflicts_with, overrides imply conflicts, "
+              "group conflicts through members and from the group's entry, non-multiple group single, exclusive alone, "
+              "required statically / through requires and requires_if / through chains of requires (transitive closure "
+              "by induction) / required groups and group requires, required_if_eq(_all), "
+              "required_unless_present(_any/_all/both), each with exactly the exemptions the code grants (witnesses: "
+              "conflict, exclusive and subcommand exemptions are granted, conditional rules have no conflict "
+              "exemption); C03_defaults_inert: Relations is a function of the explicit entries only.  Converse: "
+              "C03_conflicts_complete / C03_no_false_conflict (a matcher satisfying the conflict clauses is never "
+              "answered ArgumentConflict by the validator, any graph) and C03_validate_iff_static (class static_only: "
+              "validate = Ok <-> Relations).  The model is tied to clap_builder by running the extracted model and the "
+              "real crate on the same generated cases on every check, and an independent python oracle re-checks every "
               "successful parse of the implementation against the documented relation semantics.")
 LEVEL_NOTE = ("Trusted: Coq kernel, extraction, OCaml driver, Rust harness, generators, python oracle.  Recorded findings: "
               "an overrides list naming a group removes the group's matcher entry but not its members "
-              "(C03-override-names-group); a group entry stays present after its last member was overridden "
-              "(C03-stale-group-after-override); theorems C03_group_coherence_refuted_f1/_f2, C03_members_refuted_f1.")
+              "(C03-override-names-group = boolean family f1_family of definitions); a group entry stays present after "
+              "its last member was overridden (C03-stale-group-after-override = family f2_family); theorems "
+              "C03_group_coherence_refuted_f1/_f2, C03_members_refuted_f1, C03_families_witnesses (each witness lies in "
+              "exactly its family and is produced by one call of remove_overrides).  Proved outside the families "
+              "(group_safe), step level only (_partial): remove_overrides touches no group entry and no other member "
+              "entry, start_custom_arg re-establishes coherence of every group.  NOT proved (differential + oracle): "
+              "coherence of group entries as an invariant of the whole parse (needed for the member-based reading "
+              "RelationsM at parse level), completeness of the validator beyond conflicts / static_only, commands with "
+              "short flag-subcommands, ignore_errors.")
 
 EXPLICIT = ("cmdline", "env")
 KNOWN_F1 = "C03-override-names-group"
